@@ -89,3 +89,34 @@ func init() {
 		}
 	}
 }
+
+func init() {
+	dumpers["app"] = func(p *load.Program, args []string) {
+		c := &Ctx{Prog: p}
+		for _, s := range appSpecs {
+			if len(args) > 0 && args[0] != s.Type {
+				continue
+			}
+			r := runApp(c, s)
+			ok, bad, und := 0, 0, 0
+			for _, f := range r.Facts {
+				switch {
+				case f.Undec:
+					und++
+				case f.OK:
+					ok++
+				default:
+					bad++
+				}
+			}
+			fmt.Printf("== %s: ok=%d bad=%d undecided=%d nodes=%d\n", s.name(), ok, bad, und, r.Nodes)
+			for _, f := range r.Facts {
+				if f.Undec {
+					fmt.Printf("   UNDECIDED %s %s: %s\n", f.Clause, f.Key, f.Got)
+				} else if !f.OK {
+					fmt.Printf("   BAD %s %s\n        want %s\n        got  %s\n", f.Clause, f.Key, f.Want, f.Got)
+				}
+			}
+		}
+	}
+}
